@@ -63,7 +63,7 @@ Inductive c04_case :=
 Definition c04_check (c : c04_case) : bool * bool :=
   match c with
   | KSeq rs bytes impl =>
-      let model := fst (prod_decode bytes) in
+      let model := prod_decode_fast bytes in
       (nlist_eqb (concat (map print rs)) bytes && list_eqb tev_eqb model impl,
        (* property predicate: every well-formed self-delimiting report decodes to what it denotes *)
        negb (forallb prod_wf rs)
@@ -78,7 +78,7 @@ Definition c04_check (c : c04_case) : bool * bool :=
                                   | _, _ => tev_eqb (prod_denote r) ev
                                   end) rs impl)
   | KBytes bytes impl =>
-      (list_eqb tev_eqb (fst (prod_decode bytes)) impl, true)
+      (list_eqb tev_eqb (prod_decode_fast bytes) impl, true)
   end.
 
 Definition c04_report := SNT.Base.Report.report c04_check.
